@@ -135,7 +135,7 @@ class C15(core.Check):
         import numpy as np
         r = self.rng
         n = 420
-        out = [Series(k, indlib.candles(r, n, k)) for k in (['walk', 'flat', 'trend', 'alt', 'spike'] + (['down', 'lattice', 'walk'] if big else []))]
+        out = [Series(k, indlib.candles(r, n, k)) for k in (['walk', 'flat', 'trend', 'alt', 'spike', 'gappy'] + (['down', 'lattice', 'walk', 'stall'] if big else []))]
         for name, f in (('huge', 2.0 ** 20), ('tiny', 2.0 ** -20)):
             c = indlib.candles(r, n, 'walk')
             c[:, 1:5] *= f
